@@ -34,7 +34,7 @@ def main():
         match(["X"], "==", "1"),                                                          # filters over the containers
         {"t": "and", "l": match(["X"], "==", "1"), "r": match(["Y"], "!=", "a"), "val": "", "hv": False, "mode": "", "n1": "", "n2": ""},
         # a broken pattern / an erroring quantifier body that only some documents reach
-        {"t": "or", "l": match(["top"], "==", "5"), "r": match(["s"], "matches", "("), "val": "", "hv": False, "mode": "", "n1": "", "n2": ""},
+        {"t": "or", "l": match(["top"], "==", "5"), "r": match(["mix", "b"], "matches", "("), "val": "", "hv": False, "mode": "", "n1": "", "n2": ""},
         {"t": "or", "l": match(["top"], "==", "5"), "r": coll("any", ["m3e"], "value", "", "top", match(["top", "V"], "==", "2")), "val": "", "hv": False, "mode": "", "n1": "", "n2": ""},
     ]
     evs = [{"e": i + 1, "c": 1, "f": False} for i in range(7)] + [{"e": 1, "c": 2, "f": False}, {"e": 3, "c": 2, "f": False},
